@@ -38,8 +38,8 @@ class ParkPolicy:
         if self.which == 'cancel':
             return r.name.startswith('_IncomingPacketHandler') and op.kind == 'event.set'
         if self.which == 'sent':
-            return (not r.name.startswith('_IncomingPacketHandler') and
-                    op.kind in ('lock.release', 'rlock.release') and getattr(r, 'sent_mark', False))
+            # from the moment the link has the packet until the application's next step
+            return not r.name.startswith('_IncomingPacketHandler') and getattr(r, 'sent_mark', False)
         return r.name.startswith('Timer') and op.kind == 'thread.start'
 
     def choose(self, sched, runnable, timed):
@@ -79,6 +79,10 @@ def execute(sc, mutant=None):
 
         def ms():
             return int(round(s.now * 1000))
+
+        # an application callback on packet_sent (the console, log and param clients use one): a
+        # point inside send_packet, after the link has the packet, where other threads can run
+        cf.packet_sent.add_callback(lambda pk: vtime.sleep(0))
 
         # The answer check is bracketed: 'ansb' is logged on entry (no yield point lies between the
         # entry and the snapshot of the pending patterns, so it fixes which request the packet
@@ -135,6 +139,7 @@ def execute(sc, mutant=None):
         def user():
             for op in sc['ops']:
                 k = op[0]
+                s.current().sent_mark = False
                 if k == 'open':
                     if cf.link is None:
                         nopen[0] += 1
